@@ -300,7 +300,8 @@ def check_single_writers(ctx, rule):
 
 def check_purity(ctx, rule):
     """Tokenizer/Parser methods depend on nothing but their fields, arguments and constants."""
-    allowed_ext = {'isinstance', 'len', 'deque', 'collections.deque', 'list', 'numbers.Integral', 'TypeError', 'ValueError'}
+    allowed_ext = {'isinstance', 'len', 'deque', 'collections.deque', 'list', 'numbers.Integral', 'TypeError', 'ValueError', 'range', 'enumerate',
+                   'zip', 'min', 'max', 'int', 'bool', 'tuple', 'bytes', 'bytearray'}
     for modname in (TOK, PAR):
         m = ctx.p.module(modname)
         for c in m.classes.values():
